@@ -8,6 +8,7 @@ import (
 	"github.com/orda-io/orda/client/pkg/operations"
 	"github.com/orda-io/orda/client/pkg/vhook"
 	"sync"
+	"sync/atomic"
 )
 
 // NotUserTransactionTag ...
@@ -33,6 +34,7 @@ type TransactionDatatype struct {
 	rollbackMeta     []byte
 	rollbackOps      []iface.Operation
 	txCtx            *TransactionContext
+	owner            atomic.Value // *TransactionContext of the lock holder (nil pointer when free)
 }
 
 // NewTransactionDatatype creates a new TransactionDatatype
@@ -98,10 +100,20 @@ func (its *TransactionDatatype) setTransactionContextAndLock(tag string) *Transa
 	}
 	its.mutex.Lock()
 	its.isLocked = true
-	return &TransactionContext{
+	ctx := &TransactionContext{
 		tag:      tag,
 		opBuffer: nil,
 	}
+	its.owner.Store(ctx)
+	return ctx
+}
+
+// isOwner tells whether txCtx is the context of the transaction that holds the lock right now.
+// A context can outlive its transaction (a handle obtained inside a transaction body keeps it),
+// so the test is made on a value other goroutines may read while the holder changes it.
+func (its *TransactionDatatype) isOwner(txCtx *TransactionContext) bool {
+	cur, _ := its.owner.Load().(*TransactionContext)
+	return cur != nil && cur == txCtx
 }
 
 // BeginTransaction is called before a transaction is executed.
@@ -117,7 +129,7 @@ func (its *TransactionDatatype) BeginTransaction(
 	// and its goroutine holds the lock) may skip the lock. A top-level call has no context and
 	// must always take it: comparing its nil context with the fields below, which the lock
 	// holder resets while unlocking, let concurrent callers slip through without the lock.
-	if txCtx != nil && its.isLocked && its.txCtx == txCtx {
+	if txCtx != nil && its.isOwner(txCtx) {
 		return nil // called after DoTransaction() succeeds.
 	}
 	vhook.At("tx.begin.before-lock")
@@ -184,6 +196,7 @@ func (its *TransactionDatatype) EndTransaction(txCtx *TransactionContext, withOp
 func (its *TransactionDatatype) unlock() {
 	if its.isLocked {
 		its.txCtx = nil
+		its.owner.Store((*TransactionContext)(nil))
 		vhook.At("tx.unlock.1")
 		its.success = true
 		its.isLocked = false // before the lock is released: afterwards the next holder owns it
